@@ -58,7 +58,7 @@ class KademliaRPC:
     def store(self, rpc_contact: 'KademliaPeer', blob_hash: bytes, token: bytes, port: int) -> bytes:
         if not isinstance(blob_hash, bytes) or len(blob_hash) != constants.HASH_BITS // 8:
             raise ValueError(f"invalid blob hash: expected {constants.HASH_BITS // 8} bytes")
-        if not 0 < port < 65535:
+        if not 1024 <= port <= 65535:
             raise ValueError(f"invalid tcp port: {port}")
         rpc_contact.update_tcp_port(port)
         if not self.verify_token(token, rpc_contact.compact_ip()):
